@@ -238,6 +238,24 @@ func c02Run(c *core.Ctx) {
 	}
 	c02Trees(c)
 	c02Stmts(c)
+	// numeric literal acceptance: every literal shape of the C07 family that the reference accepts
+	for _, lit := range c07Numbers(c.Thorough()) {
+		if !c.Next() {
+			continue
+		}
+		src := "x = " + lit + " ;"
+		c.Inc("reference_parses")
+		out, k, d := c02Check(src)
+		if out {
+			continue
+		}
+		c.Inc("programs")
+		c.Inc("number_literal_programs")
+		if k != "" && c.ShrinkOK(k) {
+			pl, _ := json.Marshal(c02Payload{src})
+			c.Violate(core.Violation{Kind: k, Config: "number", Case: fmt.Sprintf("%q", src), Detail: d, Payload: pl, Size: len(lit)})
+		}
+	}
 	// soundness self-check of the prefilter at n<=3: nothing it drops may be a valid subset program
 	if c.Shard == 0 {
 		for L := 1; L <= 3; L++ {
